@@ -56,6 +56,7 @@ type FuncContract struct {
 	Like           string // abstract contract of a func-typed field: parameter names/types taken from this function
 	LocksChange    bool
 	ClausePropsEns map[int][]string
+	LocalEns       map[int]bool // postconditions that callers do not assume
 }
 
 type PredDef struct {
@@ -294,6 +295,14 @@ func (cs *Contracts) parseFile(root, file string) error {
 					cur.ClausePropsEns[len(cur.Ensures)] = strings.Split(strings.ReplaceAll(rest[1:j], " ", ""), ",")
 					rest = strings.TrimSpace(rest[j+1:])
 				}
+			}
+			if strings.HasPrefix(rest, "local ") {
+				// "ensures [Cxx] local <expr>": proved on the body, not assumed at call sites (keeps the callers' queries small)
+				rest = strings.TrimSpace(rest[len("local "):])
+				if cur.LocalEns == nil {
+					cur.LocalEns = map[int]bool{}
+				}
+				cur.LocalEns[len(cur.Ensures)] = true
 			}
 			cur.Ensures = append(cur.Ensures, rest)
 			lastClause = &cur.Ensures[len(cur.Ensures)-1]
